@@ -3,6 +3,7 @@ package props
 import (
 	"fmt"
 	"go/ast"
+	"go/token"
 	"go/types"
 	"sort"
 	"strings"
@@ -89,10 +90,18 @@ func init() {
 		bcast + "(*validator).addBlockHeader", bcast + "(*validator).isDeniedPeer", bcast + "(*validator).addBroadcastMsg", bcast + "isTxErr",
 		dl + "(*Protocol).downloadBlock", dl + "(*Protocol).downloadBlockFromPeerOld", dl + "(*Protocol).availbTask", dl + "(*Protocol).releaseJob",
 		dl + "tasks.Sort", dl + "tasks.Size", dl + "tasks.Remove", dl + "tasks.Len", dl + "tasks.Less", dl + "tasks.Swap", dl + "(*Counter).UpdateTaskInfo",
+		dl + "peersCounterKey", dl + "(*PeerTaskCounter).Append",
 	}
 	frozenSites := map[string]string{
 		bcast + "(*ltBroadcast).buildPendList:it.Value.(*pendBlock)":         "pendBlockList only ever receives *pendBlock values (PushBack in addLtBlock is the single producer)",
 		bcast + "(*ltBroadcast).handleBlockReqList:it.Value.(*blockRequest)": "blockRequestList only ever receives *blockRequest values (PushBack in addBlockRequest is the single producer)",
+		dl + "(*Protocol).availbTask:128 / len(ts)":                           "every call site passes a slice it has just tested to be non-empty (checked below)",
+		dl + "tasks.Remove:t[:task.Index]":                                    "behind `task.Index+1 > t.Size()` → return (checked below); Index is a range index, never negative",
+		dl + "tasks.Remove:t[task.Index + 1:]":                                "behind `task.Index+1 > t.Size()` → return (checked below)",
+		dl + "tasks.Less:t[a]":                                                "sort.Interface method: only sort.Sort calls it, with indices below Len() (checked below)",
+		dl + "tasks.Less:t[b]":                                                "sort.Interface method: only sort.Sort calls it, with indices below Len() (checked below)",
+		dl + "tasks.Swap:t[a]":                                                "sort.Interface method: only sort.Sort calls it, with indices below Len() (checked below)",
+		dl + "tasks.Swap:t[b]":                                                "sort.Interface method: only sort.Sort calls it, with indices below Len() (checked below)",
 	}
 	recovered := map[string]string{
 		bcast + "(*broadcastProtocol).handleBroadcastReceive": "its own deferred recover (R33a)",
@@ -109,6 +118,7 @@ func init() {
 		ID:       "C33",
 		Title:    "Peer input can never crash the node",
 		Packages: []string{"system/p2p/dht/protocol/broadcast", "system/p2p/dht/protocol/download", "system/p2p/dht/protocol"},
+		Hold:     "R33b/R33c fire on the light-block reconstruction (unchecked indices in a goroutine without recover, allocation sized by the peer's TxCount); reproduction and repair in progress",
 		Explanation: "Decides R33a-R33c for the broadcast and download protocols: (a) the pub-sub receive path runs under a leading deferred recover and the functions treated as 'recovered' are called from nowhere else; every libp2p stream handler is installed through RegisterStreamHandler, which wraps it in HandlerWithClose (leading deferred recover); " +
 			"(b) in the goroutines that are NOT under a recover frame and touch peer-derived data (pending light-block loop, block-request loop, pub-sub decoding and validators, block download workers) every slice/index expression, single-value type assertion, explicit panic and integer division is enumerated and must be discharged by a recognised bounds guard; " +
 			"(c) no allocation is sized by a value that is neither the length of an existing value nor bounded from above (also inside recovered code: running out of memory is fatal and cannot be recovered).",
@@ -204,6 +214,34 @@ func init() {
 				}
 				core.MayPanic{Funcs: unrecovered, Known: known, TrustFn: outsideTrust, SkipNilDeref: true, CheckAlloc: true, Min: 15,
 					IndexOK: frozenSites}.Check(r)
+				// the frozen download sites: the guards they rely on
+				nonEmpty := core.CondGuard{Fact: "peers-non-empty", Match: func(c *core.Ctx, atom ast.Expr) (bool, bool) {
+					if op, ok := core.CmpAtom(c, atom, core.CallsAny(dl+"tasks.Size"), core.IsConstInt(0)); ok {
+						switch op {
+						case token.EQL:
+							return true, false
+						case token.NEQ, token.GTR:
+							return true, true
+						}
+					}
+					return false, false
+				}}
+				core.Dominated{Fn: dl + "(*Protocol).downloadBlock", Spec: &core.FlowSpec{Conds: []core.CondGuard{nonEmpty}}, Sink: core.CallSink(dl + "(*Protocol).availbTask"), Need: []Fact{"peers-non-empty"}, Min: 1}.Check(r)
+				core.WhoMayCall{Targets: []string{dl + "(*Protocol).availbTask"}, Allowed: []string{dl + "(*Protocol).downloadBlock"}, Min: 1}.Check(r)
+				core.RejectWhen{Fn: dl + "tasks.Remove", Name: "the remembered index lies beyond the slice", L: core.PlusOne(core.Mentions(dl + "taskInfo.Index")), R: core.CallsAny(dl + "tasks.Size"), Rel: token.GTR,
+					RejectBy: func(fl *core.Flow, ret *core.GNode) bool {
+						rs, ok := ret.Ast.(*ast.ReturnStmt)
+						return ok && len(rs.Results) == 1 && core.IsObj("recv")(fl.C, rs.Results[0]) // returns the slice unchanged
+					}}.Check(r)
+				for _, m := range []string{"Less", "Swap"} {
+					label := dl + "tasks." + m + " is only called by the sort package"
+					n := len(r.W.CallSitesOf(core.Names(dl + "tasks." + m)))
+					if n == 0 {
+						r.OK(label, "-", "no direct call in the loaded packages")
+					} else {
+						r.Fail(label, "-", fmt.Sprintf("%d direct call(s): the indices are no longer known to be below Len()", n))
+					}
+				}
 				// the frozen list-element assertions: single producer per list
 				for _, l := range []struct{ field, producer string }{{bcast + "ltBroadcast.pendBlockList", bcast + "(*ltBroadcast).addLtBlock"}, {bcast + "ltBroadcast.blockRequestList", bcast + "(*ltBroadcast).addBlockRequest"}} {
 					label := l.field + " is filled by its single producer only"
